@@ -219,10 +219,156 @@ fn stage(i: &Input, c: &mut Case) -> Result<(), String> {
     })
 }
 
-pub const STAGES: &[Stage] = &[Stage { name: "rejected_calls", f: stage }];
+
+// ---------------------------------------------------------------------------------------------
+// a master End that fails because the content outgrew the explicit width: the master must stay open, unchanged
+
+fn stage_failed_end(i: &Input, c: &mut Case) -> Result<(), String> {
+    let mut t = Tape::new(i.tape());
+    let to = TreeOpts { max_nodes: 20, pay: PayOpts { big_left: 0, huge: false, max_small: 12 }, deep: t.chance(1, 2), ..TreeOpts::default() };
+    let mut d = gen_doc(&mut t, SpecOpts::default(), to, EncOpts { widths: true, unknown: true, full: false, noncanonical: false });
+    let spec = d.spec.table().clone();
+    // pick a master that is written as Start/End with known size and can hold a string/binary child
+    fn rec(n: &Node, chain: &mut Vec<u64>, path: &mut Vec<usize>, out: &mut Vec<(Vec<usize>, Vec<u64>)>) {
+        if !n.is_master() {
+            return;
+        }
+        chain.push(n.id);
+        if !n.enc.unknown && !n.enc.full {
+            out.push((path.clone(), chain.clone()));
+        }
+        for (k, ch) in n.children().iter().enumerate() {
+            path.push(k);
+            rec(ch, chain, path, out);
+            path.pop();
+        }
+        chain.pop();
+    }
+    let mut sites = Vec::new();
+    for (k, n) in d.forest.iter().enumerate() {
+        rec(n, &mut Vec::new(), &mut vec![k], &mut sites);
+    }
+    let usable: Vec<(Vec<usize>, Vec<u64>, Vec<(u64, Ty)>)> = sites
+        .into_iter()
+        .map(|(p, ch)| {
+            let cands: Vec<(u64, Ty)> = spec.elems.iter().filter(|e| matches!(e.ty, Ty::S | Ty::B) && ref_match(&e.path, &ch)).map(|e| (e.id, e.ty)).collect();
+            (p, ch, cands)
+        })
+        .filter(|x| !x.2.is_empty())
+        .collect();
+    if usable.is_empty() {
+        c.skipped = true;
+        c.exclude("no_master_that_can_hold_a_long_child");
+        return Ok(());
+    }
+    let (path, _chain, cands) = usable[t.below(usable.len())].clone();
+    let (cid, cty) = cands[t.below(cands.len())];
+    let w = if t.chance(1, 8) { 2u8 } else { 1u8 };
+    let len = if w == 1 { 127 + t.below(30) } else { 16383 + t.below(3) };
+    let mk = |t: &mut Tape, n: usize| if cty == Ty::S { Payload::S(gen_string(t, n)) } else { Payload::B(gen_binary(t, n)) };
+    {
+        let mut cur: &mut Node = &mut d.forest[path[0]];
+        for &k in &path[1..] {
+            cur = &mut cur.children_mut().unwrap()[k];
+        }
+        cur.enc.size_w = w;
+        cur.enc.mark = true;
+        let big = Node::leaf(cid, mk(&mut t, len));
+        let chn = cur.children_mut().unwrap();
+        let at = t.below(chn.len() + 1);
+        chn.insert(at, big);
+    }
+    fix_widths(&mut d.forest);
+    let ops = forest_ops(&d.forest);
+    // index of the marked master's End: the Start carries Width(w) and is the only one whose content cannot fit
+    let mut stack: Vec<(usize, bool)> = Vec::new();
+    let mut end_at = None;
+    let mut marked_start = None;
+    {
+        // find the op index of the marked master's Start by walking the forest in the same order as forest_ops
+        fn walk(n: &Node, k: &mut usize, found: &mut Option<usize>) {
+            let me = *k;
+            match &n.kind {
+                NodeKind::Leaf(_) => *k += 1,
+                NodeKind::Master(ch) => {
+                    if n.enc.full && !n.enc.unknown {
+                        *k += 1;
+                    } else {
+                        if n.enc.mark {
+                            *found = Some(me);
+                        }
+                        *k += 1;
+                        for x in ch {
+                            walk(x, k, found);
+                        }
+                        *k += 1;
+                    }
+                }
+            }
+        }
+        let mut k = 0;
+        for n in &d.forest {
+            walk(n, &mut k, &mut marked_start);
+        }
+    }
+    let Some(ms) = marked_start else { return Err("harness: marked master not found".into()) };
+    for (k, op) in ops.iter().enumerate() {
+        match op {
+            WOp::Write(Flat::Start(_), _) => stack.push((k, k == ms)),
+            WOp::Write(Flat::End(_), _) => {
+                if let Some((_, m)) = stack.pop() {
+                    if m {
+                        end_at = Some(k);
+                    }
+                }
+            }
+            _ => {}
+        }
+    }
+    let Some(e) = end_at else { return Err("harness: End of the marked master not found".into()) };
+    c.nontrivial = true;
+    c.label(if w == 1 { "width1_content_127plus" } else { "width2_content_16383plus" });
+    c.key(&(spec.elems.clone(), &format!("{:?}", &ops[..=e])));
+    c.sample_with(|| format!("spec {} | ops up to the failing End: {}", spec_brief(&spec), render_ops(&ops[..=e])));
+    with_spec!(d.spec, T => {
+        let mut wr = Wr::<T>::new(RecDest::new());
+        for (k, op) in ops[..e].iter().enumerate() {
+            wr.apply(op).map_err(|er| format!("call #{} {} of the valid prefix failed: {:?}\n  ops: {}", k, op.short(), er, render_ops(&ops[..=e])))?;
+        }
+        let before = wr.dest().to_vec();
+        let end_op = &ops[e];
+        let child = WOp::Write(Flat::Leaf(cid, mk(&mut t, 3)), WOpt::Default);
+        let script: [(&WOp, bool); 4] = [(end_op, false), (end_op, false), (&child, true), (end_op, false)];
+        let mut hist = Vec::new();
+        for (op, want_ok) in script {
+            let r = wr.apply(op);
+            c.checks += 1;
+            hist.push(format!("{} -> {:?}", op.short(), r.as_ref().err().map(|x| x.kind())));
+            let ok = match (&r, want_ok) {
+                (Ok(()), true) => true,
+                (Err(WErr::TagSize(_)), false) => true,
+                _ => false,
+            };
+            if !ok {
+                return Err(format!(
+                    "after a master End was rejected because its content ({}+ bytes) does not fit the {}-byte size field, the writer no longer behaves as if that call had not been made: expected {}, history: {}\n  ops before: {}",
+                    len, w, if want_ok { "Ok for a further child of the still-open master" } else { "the same TagSizeError again" }, hist.join(" ; "), render_ops(&ops[..e])
+                ));
+            }
+            if wr.dest() != &before[..] {
+                return Err(format!("the destination changed during rejected calls: {}", hist.join(" ; ")));
+            }
+        }
+        Ok(())
+    })
+}
+
+pub const STAGES: &[Stage] = &[Stage { name: "rejected_calls", f: stage }, Stage { name: "rejected_master_end", f: stage_failed_end }];
 
 pub fn run(rc: &mut RunCtx) {
-    rc.run_pt(STAGES[0], rc.pick(30_000, 1_000_000), (96, 640));
+    rc.run_pt(STAGES[0], rc.pick(120_000, 2_000_000), (96, 640));
+    rc.run_pt(STAGES[1], rc.pick(40_000, 800_000), (96, 500));
+    rc.require_label("rejected_master_end", "width1_content_127plus", 300_000);
     for l in ["tag_not_allowed_here", "size_not_representable_in_width", "unknown_size_on_non_master", "malformed_raw_id", "end_of_not_innermost_master", "full_with_invalid_child", "failing_call_inside_open_master"] {
         rc.require_label("rejected_calls", l, 20_000);
     }
